@@ -6,6 +6,7 @@ by reference and a fresh interpreter (egverif.worker) can load them.
 No class overrides __eq__/__hash__ (the properties assume identity semantics).
 """
 
+import enum
 import functools
 
 from edgegraph.structure import (
@@ -82,6 +83,24 @@ class VSlots(Vertex):
 
 class Marker:
     """Plain mixin (not a graph class)."""
+
+
+class Tag(str):
+    """A string subclass: equal (and hash-equal) to the plain string, but not the same kind of object."""
+
+
+class Level(int):
+    """An int subclass."""
+
+
+class Colour(str, enum.Enum):
+    RED = "idx"      # equal to an attribute NAME every vertex has (written early in any dump)
+    NOTE = "note"
+
+
+class Rank(enum.IntEnum):
+    LOW = 0
+    HIGH = 1
 
 
 class EqVertex(Vertex):
@@ -199,6 +218,17 @@ class UnhashableVertex(Vertex):
         return self is other
 
 
+class RankedVertex(Vertex):
+    """
+    Overrides the public `links` accessor: the same links, ordered by their tag (a user steering traversal order).
+    Everything that speaks of "the order of v.links" means this order.
+    """
+
+    @property
+    def links(self):
+        return tuple(sorted(super().links, key=lambda l: (getattr(l, "tag", 0), getattr(l, "eidx", 0))))
+
+
 class ClusterVertex(Vertex):
     """A vertex that is also an iterable of vertices (a cluster yielding its members)."""
 
@@ -240,7 +270,8 @@ EDGE_CLASSES = {
 }
 # classes for graph-spec based checks only (not part of the history driver's op language)
 SPEC_ONLY_EDGE_CLASSES = {"DuckLink": DuckLink, "OtherLink~": OtherLinkNamesake}
-SPEC_ONLY_VERTEX_CLASSES = {"Vertex~": VertexNamesake, "VSub~": VSubNamesake, "UnhashableVertex": UnhashableVertex}
+SPEC_ONLY_VERTEX_CLASSES = {"Vertex~": VertexNamesake, "VSub~": VSubNamesake, "UnhashableVertex": UnhashableVertex,
+                            "RankedVertex": RankedVertex}
 LINK_CLASSES = dict(EDGE_CLASSES)
 LINK_CLASSES["MultiLink"] = MultiLink
 ALL_CLASSES = {}
@@ -302,6 +333,11 @@ def f_tag_mod3_value(e, v):
 def f_vertex_itself(e, v):
     """Answers with the vertex (or None): truthy unless the vertex itself is falsy."""
     return v if getattr(v, "idx", 0) % 4 else None
+
+
+def f_defaulted_third_parameter(e, v, want=1):
+    """The neighbors()-style filter with one more, defaulted parameter."""
+    return getattr(e, "tag", 0) % 2 == want
 
 
 def _at_least(n):
@@ -414,6 +450,7 @@ NB_FILTERS = {
     "reentrant": f_reentrant,
     "int_valued": f_tag_mod3_value,
     "object_valued": f_vertex_itself,
+    "defaulted_param": f_defaulted_third_parameter,
 }
 
 
@@ -436,6 +473,12 @@ def g_not_directed(e):
 g_falsy_callable = FalsyCallable(2)
 
 
+def g_defaulted_second_parameter(e, want=0):
+    """A one-argument filter with a second, defaulted parameter (the loop-capture idiom `lambda e, want=colour:`)."""
+    return getattr(e, "tag", 0) % 2 == want
+
+
+
 def g_tag_mod3_value(e):
     return getattr(e, "tag", 0) % 3
 
@@ -448,6 +491,8 @@ FL_FILTERS = {
     "tagged_edge": g_tagged_edge,
     "not_directed": g_not_directed,
     "int_valued": g_tag_mod3_value,
+    "defaulted_param": g_defaulted_second_parameter,
+    "partial_with_keyword": functools.partial(g_defaulted_second_parameter, want=1),
 }
 
 
